@@ -70,6 +70,15 @@ def pySet (a : List Rat) (i : Int) (v : Rat) : Option (List Rat) :=
   | some k => some (a.set k v)
   | none => none
 
+/-- `a[i]` on a C memoryview compiled with `boundscheck=False, wraparound=False`: a negative or
+    out-of-range index is undefined behaviour in C; here it is an error (`none`), never a wrap-around. -/
+def cIdx (a : List Rat) (i : Int) : Option Rat :=
+  if 0 ≤ i then a[i.toNat]? else none
+
+/-- `a[i] = v` on a C memoryview (same convention) -/
+def cSet (a : List Rat) (i : Int) (v : Rat) : Option (List Rat) :=
+  if 0 ≤ i ∧ i < (a.length : Int) then some (a.set i.toNat v) else none
+
 /-- clamp a slice bound as Python does (`None` is given by the caller as 0 / `len`). -/
 def pyBound (n : Nat) (i : Int) : Nat :=
   if 0 ≤ i then min i.toNat n else ((n : Int) + i).toNat
